@@ -258,6 +258,18 @@ def execute(sc):
                     violations.append(viol('hash.unsupported-not-reported',
                                            'hash name %s: verify_path gave %r' % (name, r[:2]),
                                            sig='%s:%s' % (r[0], r[1] if r[0] != 'ok' else 'ok')))
+                # the unsupported name next to supported ones whose recorded values are right (before, between, after)
+                good = expected(content, sc['hashes'])
+                items = list(good.items())
+                pos = int(sc['order_key'][:2], 16) % (len(items) + 1)
+                items.insert(pos, (name, '00'))
+                e = gemato.manifest.ManifestEntryDATA('f', n, dict(items))
+                r = call(gemato.verify.verify_path, path, e)
+                ok = r[0] == 'GE' and r[1] == 'UnsupportedHash'
+                if not ok:
+                    violations.append(viol('hash.unsupported-not-reported',
+                                           'hash name %s at position %d among %r: verify_path gave %r' % (name, pos, sc['hashes'], r[:2]),
+                                           sig='mixed:%s:%s' % (r[0], r[1] if r[0] != 'ok' else 'ok')))
                 e = gemato.manifest.ManifestEntryDATA('f', 0, {})
                 r = call(gemato.verify.update_entry_for_path, path, e, hashes=['SHA256', name])
                 ok = r[0] == 'GE' and r[1] == 'UnsupportedHash'
